@@ -42,6 +42,10 @@ pub struct PlanD {
     pub muts: Vec<Mutation>,
     /// sweep every byte string up to this length (0 = none)
     pub sweep: u8,
+    /// decode (also) under a Poplar1 instance with THIS bit length (decoding-parameter skew; 0 = the
+    /// zero-bit instance); None = same instance as the encoder
+    #[serde(default)]
+    pub dec_bits: Option<u32>,
 }
 
 #[derive(Clone, Debug, Serialize, Deserialize, PartialEq)]
@@ -217,7 +221,12 @@ fn gen_plan_d(rng: &mut Rng) -> PlanD {
     }
     let nm = rng.usize_below(4);
     let muts = (0..nm).map(|_| gen_mut_raw(rng)).collect();
-    PlanD { target: target.to_string(), bits, agg: rng.below(2) as u8, sample: Hx(sample), prefixes, header, muts, sweep: 0 }
+    let dec_bits = if matches!(target, "idpf_public" | "pop_input" | "pop_state") && rng.chance(1, 3) {
+        Some(*rng.pick(&[0u32, 0, 1, bits.saturating_sub(1), bits + 1, 2 * bits, 4 * bits + 3, 1000]))
+    } else {
+        None
+    };
+    PlanD { target: target.to_string(), bits, agg: rng.below(2) as u8, sample: Hx(sample), prefixes, header, muts, sweep: 0, dec_bits }
 }
 
 fn apply_raw(b: &mut Vec<u8>, m: &Mutation) {
@@ -385,6 +394,16 @@ fn exec_plan_d(p: &PlanD, ctx: &mut Ctx) -> Result<(), String> {
     ctx.events += 2;
     decode_target(ctx, p, &honest, &pop);
     decode_target(ctx, p, &bytes, &pop);
+    if let Some(db) = p.dec_bits {
+        // the same byte strings under an instance with another bit length (incl. the zero-bit one)
+        let other = prio::vdaf::poplar1::Poplar1::new_turboshake128(db as usize);
+        let mut q = p.clone();
+        q.bits = db.max(p.bits);
+        ctx.fault("decoding_parameter_skew");
+        decode_target(ctx, &q, &honest, &other);
+        decode_target(ctx, &q, &bytes, &other);
+        ctx.events += 2;
+    }
     Ok(())
 }
 
@@ -462,12 +481,12 @@ impl Check for CheckCodec {
         let mut out = Vec::new();
         let upto = if tier == Tier::Thorough { 3 } else { 2 };
         for t in ["pop_agg_param", "pingpong", "field64", "fieldprio2", "dummy_state", "u16"] {
-            let p = PlanD { target: t.to_string(), bits: 8, agg: 0, sample: Hx(vec![]), prefixes: vec![], header: None, muts: vec![], sweep: if t == "pingpong" || t == "pop_agg_param" { upto } else { 2 } };
+            let p = PlanD { target: t.to_string(), bits: 8, agg: 0, sample: Hx(vec![]), prefixes: vec![], header: None, muts: vec![], sweep: if t == "pingpong" || t == "pop_agg_param" { upto } else { 2 }, dec_bits: None };
             out.push(serde_json::to_value(PlanC::D { plan: p }).unwrap());
         }
         for lvl in [0u16, 1, 6, 7, 8, 0x7fff, 0xfffe, 0xffff] {
             for cnt in [0u32, 1, 2, 3, 0x8000_0000, 0xffff_ffff] {
-                let p = PlanD { target: "pop_agg_param".into(), bits: 8, agg: 0, sample: Hx(vec![]), prefixes: vec!["0010".into(), "0111".into()], header: Some((lvl, cnt)), muts: vec![], sweep: 0 };
+                let p = PlanD { target: "pop_agg_param".into(), bits: 8, agg: 0, sample: Hx(vec![]), prefixes: vec!["0010".into(), "0111".into()], header: Some((lvl, cnt)), muts: vec![], sweep: 0, dec_bits: None };
                 out.push(serde_json::to_value(PlanC::D { plan: p }).unwrap());
                 // header followed by exactly one/two prefix bytes of the implied length
                 let plen = (lvl as usize + 1).div_ceil(8);
@@ -479,7 +498,7 @@ impl Check for CheckCodec {
                         pre[0] = (i as u8) << 7;
                         bytes.extend(pre);
                     }
-                    let p = PlanD { target: "pop_agg_param_raw".into(), bits: 8, agg: 0, sample: Hx(bytes), prefixes: vec![], header: None, muts: vec![], sweep: 0 };
+                    let p = PlanD { target: "pop_agg_param_raw".into(), bits: 8, agg: 0, sample: Hx(bytes), prefixes: vec![], header: None, muts: vec![], sweep: 0, dec_bits: None };
                     let mut p = p;
                     p.target = "pop_agg_param".into();
                     p.prefixes = vec!["0".into()];
